@@ -5,6 +5,7 @@ static void (*srv_tx_hook)(sim_tx_t *tx, const sdns_query_t *q, const uint8_t *m
 static int (*srv_cookie_hook)(int srvidx, const sdns_query_t *q, int is_tcp, int *action, uint8_t *ck, size_t *cklen);
 static void (*srv_frame_hook)(int srvidx, int fd, int is_tcp, const uint8_t *msg, size_t len);
 
+
 static uint32_t sim_new_serial(int srv, int fd, uint16_t qid, int action, int forged, uint32_t deviation, int txidx)
 {
   sim_pktinfo_t *pi;
@@ -206,6 +207,8 @@ typedef struct {
   int      other_family;
   uint32_t soa_ttl, soa_min;
 } srv_plan_t;
+
+static void (*srv_built_hook)(uint32_t serial, const sdns_query_t *q, const srv_plan_t *pl, int srvidx);
 
 /* Build one response for query q (raw bytes msg) according to plan; returns serial */
 static uint32_t srv_build(int srvidx, int fd, const sdns_query_t *q, const srv_plan_t *pl, sdns_out_t *o, int txidx,
@@ -544,6 +547,9 @@ static void srv_receive(int srvidx, int fd, int is_tcp, const uint8_t *msg, size
       break;
   }
   serial = srv_build(srvidx, fd, &q, &pl, &srv_out, txidx, ck, cklen);
+  if (srv_built_hook) {
+    srv_built_hook(serial, &q, &pl, srvidx);
+  }
   if (srv_out.overflow || srv_out.len > 65535) {
     return;
   }
@@ -552,6 +558,9 @@ static void srv_receive(int srvidx, int fd, int is_tcp, const uint8_t *msg, size
     srv_plan_t p2 = pl;
     p2.action     = SA_ANSWER;
     serial        = srv_build(srvidx, fd, &q, &p2, &srv_out, txidx, ck, cklen);
+    if (srv_built_hook) {
+      srv_built_hook(serial, &q, &p2, srvidx);
+    }
     srv_send_pkt(srvidx, fd, is_tcp, srv_out.b, srv_out.len, serial, d + 1 + (int64_t)vh_below(&sim_rng, 3000), srvidx);
   }
 }
